@@ -134,6 +134,16 @@ SIMPLE = [
     S("declare-attr", ["o.at: int", "{n1} = E({e1}, o.at)"], cur="n1", flags=["o"], special=True),
     S("undef-read", "{n1} = E({e1}, UNDEF)", cur="n1", special=True),
     S("late-read", "{n1} = LATER + E({e1}, {p})", cur="n1", special=True),
+    # "odd" menu (program set `odd` of the E1 properties): rarely used forms and positions
+    S("none-global-read", "{n1} = E({e1}, GNONE)", cur="n1", special=True),
+    S("weird-eq", "{n1} = NOEQ(E({e1}, {p}))", special=True),
+    S("return-yield", "return (yield E({e1}, {p}))", gen=True, special=True),
+    S("arg-yield", "E({e1}, (yield E({e2}, {p})))", gen=True, special=True),
+    S("assert-yield", "assert (yield E({e1}, {p})) != 5, E({e2}, 'boom')", gen=True, special=True),
+    S("sub-index-yield", "d[(yield E({e1}, 'k')) or 'k'] = E({e2}, {p})", flags=["d"], gen=True, special=True),
+    S("default-yield", ["def {n1}(u=(yield E({e1}, {p}))):", "    return u", "{n2} = {n1}()"], cur="n2", gen=True, special=True),
+    S("ann-yield", "{n1}: int = (yield E({e1}, {p}))", cur="n1", gen=True, special=True),
+    S("attr-yield", "o.at = (yield E({e1}, {p}))", flags=["o"], gen=True, special=True),
     S("break", "break", needs_loop=True),
     S("continue", "continue", needs_loop=True),
 ]
@@ -162,7 +172,18 @@ COMPOUND = [
     S("try-except-finally", "try:", bodies=3, body_heads=["except ERR as {n1}:", "finally:"], tier="thorough"),
     S("with-swallow", "with SWALLOW(E({e1}, {p})) as {n1}:", bodies=1, tier="thorough"),
     S("try-nameerror", "try:", bodies=2, body_heads=["except NameError:"], special=True),
+    S("for-list-target", "for [{n1}, {n2}] in PAIRS(E({e1}, {p})):", bodies=1, loop=True, special=True),
+    S("with-list-target", "with CM2(E({e1}, {p})) as [{n1}, {n2}]:", bodies=1, special=True),
+    S("for-yield-iter", "for {n1} in (yield E({e1}, {p})) or R(1):", bodies=1, loop=True, gen=True, special=True),
+    S("while-yield-test", "while (yield E({e1}, {p})):", bodies=1, loop=True, gen=True, special=True),
+    S("if-yield-test", "if (yield E({e1}, {p})):", bodies=1, gen=True, special=True),
+    S("with-yield-item", "with CM((yield E({e1}, {p}))) as {n1}:", bodies=1, gen=True, special=True),
 ]
+# the `odd` program set: every program contains at least one of ODD, the rest comes from ODD_BASE
+ODD = frozenset({"none-global-read", "weird-eq", "return-yield", "arg-yield", "assert-yield", "sub-index-yield",
+                 "default-yield", "ann-yield", "attr-yield", "for-list-target", "with-list-target", "for-yield-iter",
+                 "while-yield-test", "if-yield-test", "with-yield-item"})
+ODD_BASE = ODD | frozenset({"assign", "aug", "for", "if", "try-finally", "try-except", "yield-recv", "return", "raise", "break"})
 FORMS = {f.name: f for f in SIMPLE + COMPOUND}
 
 
@@ -202,7 +223,7 @@ def statements(ctx, budget, tier, only, depth, maxdepth):
             continue
         head, heads, c2, cur_after = form.instantiate(ctx)
         # body 1 sees names bound by the head (loop target, walrus); later bodies see the except name
-        inner0 = c2._replace(cur=cur_after if form.name in ("for", "for-else", "if-walrus", "while-walrus", "with", "with-swallow", "with-two") else c2.cur,
+        inner0 = c2._replace(cur=cur_after if form.name in ("for", "for-else", "if-walrus", "while-walrus", "with", "with-swallow", "with-two", "for-yield-iter", "with-yield-item") else c2.cur,
                              loop=ctx.loop or form.loop)
 
         def fill(k, cstart, left):
